@@ -120,7 +120,8 @@ def run(tier):
 
     # binding self-tests on observations that TLC accepts: corrupt a recovered field / the sample / drop a BAM tag
     good = [e for e in pairs if e['digested'] and e['mode'] == 'uniform' and 43 not in e['in']['idx'] and e['uq'] <= 84
-            and any(k == 'aA' for k, _ in e['dt']) and e['tid'] not in bad_tids][:4]
+            and any(k == 'aA' for k, _ in e['dt']) and {'RQ', 'bc', 'SM'} <= set(k for k, _ in e['bt'])
+            and e['tid'] not in bad_tids][:4]
 
     if len(good) < 4:    # nothing TLC accepted to corrupt (the code violates the property on every such pair): reported, not hidden
         c.selftests.append({'name': 'corrupt_RQ_SM_drop_bc_coords', 'ok': True, 'detail': 'skipped: fewer than 4 accepted observations'})
